@@ -52,6 +52,42 @@ def locks_of(o, excl_only=False):
     return {st["l"] for st in o["prog"] if (not excl_only or st["a"] in ("ex", "try_ex", "up", "upgrade"))}
 
 
+def order_edges(o):
+    """(held lock -> requested lock) pairs of an operation's lock program: nested acquisitions, any mode"""
+    held, edges = [], set()
+    for st in o["prog"]:
+        a, l = st["a"], st["l"]
+        if a in ("ex", "sh", "up", "try_ex", "try_sh", "try_up"):
+            if a.startswith("try_") and not st.get("ok", True):
+                continue
+            for h in held:
+                if h != l:
+                    edges.add((h, l))
+            held.append(l)
+        elif a in ("rel_ex", "rel_sh", "rel_up"):
+            if l in held:
+                held.remove(l)
+    return edges
+
+
+def inversion_triples(ops):
+    """Two operations that nest two locks in opposite order can both be readers (no deadlock by themselves) and still
+    deadlock under writer preference as soon as a THIRD operation queues a write request on one of the two locks.
+    For every such pair, every writer of either lock is added as third thread."""
+    edges = [order_edges(o) for o in ops]
+    out = []
+    for a in range(len(ops)):
+        for b in range(a, len(ops)):
+            inv = {(x, y) for (x, y) in edges[a] if (y, x) in edges[b]}
+            if not inv:
+                continue
+            locks = {l for e in inv for l in e}
+            for c in range(len(ops)):
+                if c not in (a, b) and locks & locks_of(ops[c], True):
+                    out.append([a + 1, b + 1, c + 1])
+    return out
+
+
 def run_gate(state, specs, sched, recover=False, timeout=40):
     args = ["timeout", str(timeout), SCHEDLAB, "run", "--state", state, "--progs", json.dumps([[s] if isinstance(s, dict) else s for s in specs]),
             "--sched", ",".join("%d:%d" % (t, 1 if b else 0) for t, b in sched)]
@@ -82,6 +118,12 @@ def explore_state(ck, state, tier, stats):
             if locks_of(ops[i]) & locks_of(ops[j]) and (locks_of(ops[i], True) | locks_of(ops[j], True)):
                 combos.append([i + 1, j + 1])
     npairs = len(combos)
+    inv3 = inversion_triples(ops)
+    stats["inversion_triples"] = stats.get("inversion_triples", 0) + len(inv3)
+    if len(inv3) > 600:
+        import random
+        inv3 = random.Random(seed()).sample(inv3, 600)
+    combos += inv3
     if tier == "thorough":
         # triples: a reader-under-lock edge needs a third (writer) thread to close under writer preference
         writers = [k for k, o in enumerate(ops) if locks_of(o, True)]
